@@ -269,5 +269,40 @@ theorem commit_exact_general (cf : Path) (oldFiles oldDirs errDirs : List Path) 
             exact ⟨h, by simp [FS.isDir, hd.2.1]⟩
         · exact ⟨hPq, hV, hnp⟩
 
+/-- the hypotheses of `commit_exact` are met (non-vacuity, for every well-formed virtual tree): the tree on disk is the
+    virtual tree plus one stale output `f` of the previous build (a regular file the virtual tree does not know) and one
+    empty directory `d` that only the disk knows, recorded by the previous build; `_commit` removes both and leaves
+    exactly the virtual tree -/
+theorem commit_exact_instance (cf f d : Path) (b : String) (m : Nat) (V : FS) (hwfV : TreeWF V)
+    (hf : V.get f = none) (hd : V.get d = none) (hfd : f ≠ d) (hfne : f ≠ []) (hdne : d ≠ [])
+    (hcf : V.isDir cf.dropLast = true) :
+    ∀ q, q ≠ cf → (commit (fun p => V.isFile p) (fun p => V.isDir p) cf [f] [d] []
+      ((V.set f (.file b m)).set d .dir)).get q = V.get q := by
+  have hget : ∀ q, q ≠ f → q ≠ d → ((V.set f (.file b m)).set d .dir).get q = V.get q := by
+    intro q h1 h2
+    rw [get_set_ne _ _ _ _ h2, get_set_ne _ _ _ _ h1]
+  have hgf : ((V.set f (.file b m)).set d .dir).get f = some (.file b m) := by
+    rw [get_set_ne _ _ _ _ hfd, get_set_self _ _ _ hfne]
+  have hgd : ((V.set f (.file b m)).set d .dir).get d = some .dir := get_set_self _ _ _ hdne
+  apply commit_exact cf [f] [d] [] _ V hwfV
+  · intro q hq
+    have h1 : q ≠ f := fun e => hq (e ▸ hf)
+    have h2 : q ≠ d := fun e => hq (e ▸ hd)
+    exact hget q h1 h2
+  · intro q b' m' _ hP hV
+    by_cases h1 : q = f
+    · simp [h1]
+    · by_cases h2 : q = d
+      · rw [h2, hgd] at hP; cases hP
+      · rw [hget q h1 h2, hV] at hP; cases hP
+  · intro q hP hV
+    by_cases h2 : q = d
+    · right; simp [h2]
+    · by_cases h1 : q = f
+      · rw [h1, hgf] at hP; cases hP
+      · rw [hget q h1 h2, hV] at hP; cases hP
+  · intro x hx; cases hx
+  · intro _; exact hcf
+
 end Commit
 end FB
